@@ -16,7 +16,9 @@ import (
 	"io"
 	"math/rand"
 	"os"
+	"os/exec"
 	"strings"
+	"time"
 	"unicode/utf8"
 )
 
@@ -233,4 +235,84 @@ func utf8JSON(v any) []byte {
 		panic(fmt.Sprintf("utf8JSON: %v", err))
 	}
 	return bytes.TrimRight(b.Bytes(), "\n")
+}
+
+
+// lineWorker: a persistent child process of this driver that answers one line per
+// request line. A fatal error in the code under test (stack overflow) kills only the
+// child: the parent observes it as a crash of the request in flight and starts a new
+// child for the next one. A silent child is killed at the deadline (a hang).
+type lineWorker struct {
+	args []string
+	cmd  *exec.Cmd
+	in   io.WriteCloser
+	out  *bufio.Reader
+}
+
+func (w *lineWorker) start() {
+	w.cmd = exec.Command(os.Args[0], w.args...)
+	in, err := w.cmd.StdinPipe()
+	if err != nil {
+		fatal("child pipe: %v", err)
+	}
+	outp, err := w.cmd.StdoutPipe()
+	if err != nil {
+		fatal("child pipe: %v", err)
+	}
+	w.cmd.Stderr = io.Discard
+	if err := w.cmd.Start(); err != nil {
+		fatal("child start: %v", err)
+	}
+	w.in, w.out = in, bufio.NewReaderSize(outp, 1<<22)
+}
+
+func (w *lineWorker) stop() {
+	if w.cmd != nil {
+		w.cmd.Process.Kill()
+		w.cmd.Wait()
+		w.cmd = nil
+	}
+}
+
+// call sends one request line; status is "ok", "crash" or "timeout".
+func (w *lineWorker) call(req []byte, deadline time.Duration) (string, string) {
+	if w.cmd == nil {
+		w.start()
+	}
+	w.in.Write(append(append([]byte{}, req...), '\n'))
+	type ans struct {
+		line string
+		err  error
+	}
+	ch := make(chan ans, 1)
+	out := w.out
+	go func() { l, err := out.ReadString('\n'); ch <- ans{l, err} }()
+	select {
+	case a := <-ch:
+		if a.err != nil || len(a.line) == 0 {
+			w.stop()
+			return "", "crash"
+		}
+		return a.line, "ok"
+	case <-time.After(deadline):
+		w.stop()
+		return "", "timeout"
+	}
+}
+
+// serveLines is the child side: one answer line per request line.
+func serveLines(handle func(line string) []byte) {
+	in := bufio.NewReaderSize(os.Stdin, 1<<22)
+	out := bufio.NewWriter(os.Stdout)
+	for {
+		line, err := in.ReadString('\n')
+		if len(line) > 1 {
+			out.Write(handle(strings.TrimRight(line, "\n")))
+			out.WriteByte('\n')
+			out.Flush()
+		}
+		if err != nil {
+			return
+		}
+	}
 }
